@@ -579,6 +579,10 @@ func (res *Response) flush(conn io.Writer) error {
 		}
 		pdata = mempool.AppendString(pdata, "0\r\n")
 		for k, v := range res.trailer {
+			// a trailer is usually given its value after the body was written.
+			if vv := res.header[k]; len(vv) > 0 {
+				v = vv[0]
+			}
 			pdata = mempool.AppendString(pdata, k)
 			pdata = mempool.AppendString(pdata, ": ")
 			pdata = mempool.AppendString(pdata, v)
